@@ -81,10 +81,27 @@ std::string show(X x)
 template <class X>
 rc::Gen<uint64_t> gen_any(std::vector<X> anchors)
 {
-    return rc::gen::map(rc::gen::tuple(in_range<unsigned>(0, 11), rc::gen::arbitrary<uint64_t>(), in_range<int>(-2, 2)), [anchors](std::tuple<unsigned, uint64_t, int> t) {
+    return rc::gen::map(rc::gen::tuple(in_range<unsigned>(0, 14), rc::gen::arbitrary<uint64_t>(), in_range<int>(-2, 2)), [anchors](std::tuple<unsigned, uint64_t, int> t) {
         uint64_t r = std::get<1>(t);
         X v;
         switch (std::get<0>(t)) {
+            case 12:
+            case 13:
+                if constexpr (std::is_floating_point_v<X>) {
+                    // tiny magnitudes (products of two of them underflow), either sign, near an anchor's scale or not
+                    v = std::ldexp(X(1 + r % 3), -int(30 + (r >> 8) % (sizeof(X) == 4 ? 118 : 1040))) * ((r & 4) ? X(-1) : X(1));
+                } else {
+                    // a value congruent to (a neighbour of) an anchor modulo 2^8, 2^16 or 2^32: equal to it once truncated
+                    using U = std::make_unsigned_t<X>;
+                    const unsigned shifts[] = {8, 16, 32};
+                    unsigned sh = shifts[(r >> 3) % 3];
+                    U base = U(step(anchors[r % anchors.size()], std::get<2>(t)));
+                    if (sh < 8 * sizeof(X)) {
+                        base = U(base + U(U(1 + (r >> 8) % 5) << sh));
+                    }
+                    v = X(base);
+                }
+                break;
             case 0: v = std::numeric_limits<X>::lowest(); break;
             case 1: v = std::numeric_limits<X>::max(); break;
             case 2: v = X(0); break;
